@@ -206,7 +206,7 @@ def _codec_concrete(params):
     run_path({"storage": "csv", "auto_index": True, "stub": False}, body)
 
 
-ALPHA = ["a", ",", '"', "'", ";", "\\", "\r", "\n", "\x00", "é", " ", "_"]
+ALPHA = ["a", ",", '"', "'", ";", "\\", "\r", "\n", "\x00", "é", " ", "_", "t", "f"]
 DIALECTS = [{}, {"delimiter": ";"}, {"quoting": csv.QUOTE_ALL}, {"quotechar": "'"}]
 SLOTS = ("measurement", "tag_key", "tag_value", "field_key")
 
@@ -236,6 +236,15 @@ def h_csv(params):
         compact = bool(params.get("compact"))
         h.db.insert(Point(**{k: (dict(v) if isinstance(v, dict) else v) for k, v in kw.items()}), compact_key_prefixes=compact)
         got_live = h.db.all()
+        if params.get("swap"):
+            # a second point is inserted and removed again: the storage is rewritten and its
+            # handle reopened; the surviving point must still read back unchanged
+            from tinyflux import MeasurementQuery
+
+            h.db.insert(Point(time=T0 + _dt.timedelta(seconds=1), measurement="zz\r", tags={"q": "r\r\n"}, fields={}))
+            n = h.db.remove(MeasurementQuery() == "zz\r")
+            require(n == 1, lambda: f"remove of the auxiliary point returned {n}")
+            got_live = h.db.all()
         h.db.close()
         db2 = TinyFlux(h.path, **dia)
         got = db2.all()
@@ -249,12 +258,51 @@ def h_csv(params):
 
 
 KF_EMPTY_M = "KF-C05-empty-measurement"
-HARNESS = {"h_codec": h_codec, "h_csv": h_csv}
+TOKENS = ["", "a", "t", "f", "_", "t_", "f_", "_tag_", "_field_", "_none", "-1", "1.0", "e", "nan", " "]
+
+
+def h_tokens(params):
+    """Bounded fallback of the codec family on the REAL functions: every string slot ranges
+    over all concatenations of two tokens of TOKENS (the reserved words and their pieces);
+    two tag cells and two field cells, both prefix styles.  Selector enumeration."""
+    from tinyflux import Point
+
+    slot, compact = params["slot"], params["compact"]
+    excl = set(params.get("exclude", []))
+    s = TOKENS[choose("a", len(TOKENS))] + TOKENS[choose("b", len(TOKENS))]
+    s2 = TOKENS[choose("c", len(TOKENS))]
+    if KF_NONE in excl and slot == "tag_value" and "_none" in (s, s2):
+        raise lpe.Infeasible()
+    kw = {"time": T0, "measurement": "m", "tags": {"k": "v", "j": None}, "fields": {"f": 1.5, "g": None, "h": -3}}
+    if slot == "measurement":
+        kw["measurement"] = s
+    elif slot == "tag_key":
+        kw["tags"] = {s: "v", s2 + "x": None}
+    elif slot == "tag_value":
+        kw["tags"] = {"k": s, "j": s2}
+    else:
+        kw["fields"] = {s: 1.5, s2 + "x": None, "h" + s: -3}
+    p = Point(**kw)
+    try:
+        row = p._serialize_to_list(compact_key_prefixes=compact)
+        q = Point()._deserialize_from_list(list(row))
+    except Exception as e:
+        fail(lambda: f"codec raised {type(e).__name__}: {e} for {show(p)}")
+    require(q == p, lambda: f"decode(encode(p)) != p: {show(p)} -> {list(row)!r} -> {show(q)}")
+    require(list(q.tags) == list(p.tags) and list(q.fields) == list(p.fields), lambda: f"keys moved between tags and fields: {show(p)} -> {show(q)}")
+    if params.get("twin"):
+        fail("reachability twin")
+
+
+HARNESS = {"h_codec": h_codec, "h_csv": h_csv, "h_tokens": h_tokens}
 
 
 def classify(ob, res):
     inp = res.get("inputs") or {}
     msg = ((res.get("replay") or {}).get("msg") or res.get("msg") or "")
+    if ob["harness"] == "h_tokens" and ob["params"]["slot"] == "tag_value":
+        if "_none" in (TOKENS[inp.get("a", 0)] + TOKENS[inp.get("b", 0)], TOKENS[inp.get("c", 0)]):
+            return KF_NONE
     if ob["harness"] == "h_codec":
         p = ob["params"]
         for i in range(p["n_tags"]):
@@ -273,7 +321,8 @@ def preflight(tier):
     out = {"L-int-float": lemmas.lemma_int_float(), "L-repr-lang": lemmas.lemma_repr_lang(5000 if tier == "quick" else 100000)}
     for k, v in out.items():
         if not v["ok"]:
-            raise SystemExit(f"HARNESS-ERROR lemma {k} failed: {v}")
+            print(f"HARNESS-ERROR lemma {k} failed: {v}")
+            raise SystemExit(2)
     # translator validation: interpret the real source on concrete points, compare with CPython
     d = _defs()
     rnd = random.Random(5)
@@ -319,9 +368,15 @@ def preflight(tier):
                     assert (v is None and w is None) or (v == w and type(v) is type(w)), (p, k, v, w)
 
     r = eng.explore(one)
-    if r["verdict"] != "holds":
-        raise SystemExit(f"HARNESS-ERROR translator validation failed: {r}")
     n = len(pts) * 2
+    if r["verdict"] == "inconclusive":
+        # the codec uses a construct the translator does not know: the codec family will
+        # report itself inconclusive; the bounded families on the real functions still decide
+        out["translator_validation"] = f"skipped: {r['msg']}"
+        n = 0
+    elif r["verdict"] != "holds":
+        print(f"HARNESS-ERROR translator validation failed: {r}")
+        raise SystemExit(2)
     # CPython facts assumed for the abstract values
     m = 0
     for _ in range(20000 if tier == "quick" else 200000):
@@ -356,7 +411,11 @@ def obligations(tier):
     for slot in SLOTS:
         for dia in range(len(DIALECTS)):
             for compact in (False, True):
-                obs.append({"id": f"csv/{slot}/dialect{dia}/{'compact' if compact else 'default'}", "harness": "h_csv", "params": {"slot": slot, "dialect": dia, "maxlen": b["csv_len"], "compact": compact}, "budget_s": 300})
+                obs.append({"id": f"csv/{slot}/dialect{dia}/{'compact' if compact else 'default'}", "harness": "h_csv", "params": {"slot": slot, "dialect": dia, "maxlen": b["csv_len"], "compact": compact, "swap": compact}, "budget_s": 300})
+    for slot in SLOTS:
+        for compact in (False, True):
+            obs.append({"id": f"tokens/{slot}/{'compact' if compact else 'default'}", "harness": "h_tokens", "params": {"slot": slot, "compact": compact}, "budget_s": 120})
+    obs.append({"id": "twin/tokens", "harness": "h_tokens", "params": {"slot": "tag_key", "compact": True, "twin": True}, "budget_s": 60})
     obs.append({"id": "twin/codec", "harness": "h_codec", "params": {"n_tags": 1, "n_fields": 1, "compact": False, "kinds": ["float"], "twin": True}, "budget_s": 60})
     obs.append({"id": "twin/csv", "harness": "h_csv", "params": {"slot": "tag_value", "dialect": 0, "maxlen": 1, "twin": True}, "budget_s": 60})
     return obs
